@@ -46,7 +46,7 @@ def plan(tier, seed):
 
 def finalize(agg, tier):
     r = []
-    for c in ("roundtrips_checked", "reference_decrypts", "relayout_checked", "clock_reads", "kdf_calls_metered", "stepmeter_samples", "session_protects", "session_unprotects"):
+    for c in ("roundtrips_checked", "reference_decrypts", "relayout_checked", "kdf_calls_metered", "stepmeter_samples", "session_protects", "session_unprotects"):
         if agg.counter(c) == 0:
             r.append(f"monitor never reached: {c}")
     for m in MODES:
